@@ -124,6 +124,9 @@ def real_roundtrip(r, cm, comps, blocks, key, mk_enc, mk_dec_sets):
             return "session key differs: %s vs %s" % (g.session_key.hex(), key.hex())
         got = [C.block_view(a) for a in g.auth_blocks.values()]
         tags = [t for t, _ in hdr]
+        want_tags = list(dict.fromkeys(C.mk_block(x).tag for x in blocks))
+        if tags != want_tags:
+            return "auth blocks written in another order than they were added: %r vs %r" % (tags, want_tags)
         if [t for t, _ in g.auth_blocks.items()] != tags:
             return "block tags differ: %r vs %r" % (list(g.auth_blocks), tags)
         for (t, raw), gv, wb in zip(hdr, got, [C.block_view(C.mk_block(x)) for x in sorted(blocks, key=lambda x: tags.index(C.mk_block(x).tag))]):
